@@ -111,7 +111,8 @@ def classes_main(outp, histp):
                 del slots[s]
                 gc.collect()
         cases.append({'op': 'cache-history', 'tid': h['tid'], 'log': log})
-    # exceed the capacity of 4096 and provoke address reuse
+    # exceed the capacity of 4096 and provoke address reuse: first 4300 long-lived classified classes fill the memo to its cap,
+    # then transient classes with alternating verdicts are created, classified and freed (their addresses get reused)
     stale = 0
     pad_reuse = 0
     addrs = set()
@@ -119,6 +120,12 @@ def classes_main(outp, histp):
            {'tuplesub': True, 'fields': 'absent', 'make': 'callable', 'asdict': 'callable'},
            {'tuplesub': True, 'fields': 'tuple_of_str', 'make': 'absent', 'asdict': 'callable'}]
     keep = []
+    for i in range(4300):
+        cls = make_class(trs[i % 3], f'K{i}')
+        truth = i % 3 == 0
+        if bool(optree.is_namedtuple_class(cls)) != truth:
+            stale += 1
+        keep.append(cls)
     n_transient = int(os.environ.get('VERIF_TRANSIENT', '6000'))
     for i in range(n_transient):
         tr = trs[(i * 7 + i // 3) % 3]
@@ -127,10 +134,10 @@ def classes_main(outp, histp):
             pad_reuse += 1
         addrs.add(id(cls))
         truth = tr['fields'] == 'tuple_of_str' and tr['make'] == 'callable'
-        if bool(optree.is_namedtuple_class(cls)) != truth or bool(optree.is_namedtuple_class.__python_implementation__(cls)) != truth:
+        inst_kind = int(optree.tree_structure(cls((1, 2))).kind)
+        if bool(optree.is_namedtuple_class(cls)) != truth or bool(optree.is_namedtuple_class.__python_implementation__(cls)) != truth \
+                or (inst_kind == 6) != truth:
             stale += 1
-        if i % 5 == 0 and len(keep) < 4200:
-            keep.append(cls)        # long-lived classes fill the cache up to its cap
         del cls
         if i % 50 == 0:
             gc.collect()
